@@ -776,8 +776,14 @@ def run_c_all(exe, lines, chunk=400):
         while i < len(part):
             text = "\n".join(part[i:]) + "\n"
             rc, out, err = vlib.run_cases(exe, text, timeout=3000)
-            if "ERROR" in err or "runtime error" in err:
-                errs.append(err)
+            # UBSan reports (non fatal) are collected; a fatal ASan report shows up as a dead harness and is judged per case below
+            marker = err.find("AddressSanitizer")
+            head = err if marker < 0 else err[:marker]
+            hl = [l for l in head.split("\n") if l.strip()]
+            rl = [l for l in hl if "runtime error" in l]
+            if marker >= 0 and hl and rl and hl[-1] is rl[-1]:
+                rl = rl[:-1]                      # the UBSan line announcing the fatal access itself
+            errs += rl
             partial = out[-1] if out and out[-1] != "" else ""     # the harness died in the middle of a line
             complete = out[:-1]
             if len(complete) >= len(part) - i:
@@ -996,8 +1002,8 @@ def run(rep, tier, seed, replay=None):
             nbad += 1
         if nbad > 12:
             break
-    if ("ERROR: AddressSanitizer" in cerr or "runtime error" in cerr) and not rep.violations and not rep.known:
-        rep.violation("C17: sanitizer report while running the search cases: " + " | ".join(l for l in cerr.split("\n") if "ERROR" in l or "runtime error" in l)[:600],
+    if "runtime error" in cerr and not rep.violations:
+        rep.violation("C17: UBSan report while running the search cases: " + " | ".join(l for l in cerr.split("\n") if "runtime error" in l)[:600],
                       {"kind": "search", "stderr": cerr[-3000:]}, no_input=True)
     if not proved and not rep.violations:
         rep.violation("C17: proof obligations no longer check (see log) and no failing input was found by the correspondence run",
